@@ -35,17 +35,17 @@ type RepoReq struct {
 
 // Repo is a stateful, versioned SDR repository device (IPMI v2.0 section 33).
 type Repo struct {
-	mu       sync.Mutex
-	Recs     []SDRRecord
-	Resv     uint16
-	AddTS    uint32
-	EraseTS  uint32
-	Version  int
-	History  map[int][]SDRRecord
-	ResvVer  map[uint16]int // reservation -> version it was issued in
-	Log      []RepoReq
-	nGet     int
-	nInfo    int
+	mu         sync.Mutex
+	Recs       []SDRRecord
+	Resv       uint16
+	AddTS      uint32
+	EraseTS    uint32
+	Version    int
+	History    map[int][]SDRRecord
+	ResvVer    map[uint16]int // reservation -> version it was issued in
+	Log        []RepoReq
+	nGet       int
+	nInfo      int
 	BeforeGet  func(nth int, r *Repo) // called (locked) before serving the nth Get SDR
 	BeforeInfo func(nth int, r *Repo) // called (locked) before serving the nth Get SDR Repository Info
 	// LenientLength makes over-long reads return what is there instead of 0xCA.
@@ -287,8 +287,8 @@ type DCMISensorInfo struct {
 	mu sync.Mutex
 	// IDs per (sensor type, entity ID): record IDs of instances 1..n.
 	IDs      map[[2]byte][]uint16
-	PageSize int             // record IDs per response, 1..8
-	ErrFor   map[byte]byte   // entity ID -> completion code to return instead
+	PageSize int           // record IDs per response, 1..8
+	ErrFor   map[byte]byte // entity ID -> completion code to return instead
 	Requests []DCMIReq
 }
 
